@@ -144,7 +144,17 @@ class Scenario:
                     if rs.rand() < 0.5:
                         m.to_delete_label = int(rs.choice(m.unique_labels))
                     else:
-                        m.to_add_atoms = mc.context.exchange_atoms.copy()
+                        t = mc.context.exchange_atoms
+                        r2 = rs.rand()
+                        if r2 < 0.6:
+                            m.to_add_atoms = t.copy()
+                        elif len(t) == 1:
+                            # the documented pre-selection takes any particle: here two atoms instead of the one-atom template
+                            second = t.copy()
+                            second.positions += [0.9, 0.0, 0.0]
+                            m.to_add_atoms = t.copy() + second
+                        else:
+                            m.to_add_atoms = t[:1]  # ... or one atom instead of the two-atom template
                 elif isinstance(m, RecDisp):
                     m.to_displace_labels = int(rs.choice(m.unique_labels))
 
